@@ -1,6 +1,6 @@
 """C26 — forwarded DNS messages keep their meaning (mitmproxy/proxy/layers/dns.py on top of the C25 codec)."""
 import json, struct
-from common.check import PropertyCheck
+from common.check import PropertyCheck, Skip
 from common import world as W
 import c25_dns as D
 from c25_dns import hx, unhx
@@ -14,7 +14,6 @@ from mitmproxy.proxy.layers import dns as dnslayer
 U16, U32 = 65535, 4294967295
 HOST = [b"www", b"example", b"com", b"ORG", b"mail", b"ns1", b"ns2", b"Host-1", b"_sip", b"_tcp", b"a", b"xn--bcher-kva", b"xn--mnchen-3ya", b"x" * 63]
 ODD = [b"xn--BCHER-kva", b"xn--BcHEr-kVA", b"xn--MNCHEN-3ya", b"a.b", b"\xc3\xa9t\xc3\xa9", b"\xc0\x0c", b"xn--a", b"XN--A", b"caf\xe9", b" ", b"*"]
-CANNED_QUERY = struct.pack("!HHHHHH", 0x1234, 0x0100, 1, 0, 0, 0) + b"\x07example\x03com\x00\x00\x01\x00\x01"
 _OPTS = None
 
 
@@ -44,7 +43,8 @@ class Check(PropertyCheck):
     level_note = ("trusted: Lean kernel; hand-written models tied differentially (forwarded bytes; DnsRef rendering vs its "
                   "Python twin). The idna codec is a parameter of the model, instantiated per case from the real codec. "
                   "Hooks are answered without modification by the world; only one segment per connection and direction is "
-                  "modelled (segmentation and id matching are C27). The oracle additionally demands that a message made of "
+                  "modelled (segmentation and id matching are C27: for server->client cases the world first lets the client ask "
+                  "the query each server message answers, so that the reply is solicited). The oracle additionally demands that a message made of "
                   "plain host-name labels is actually delivered; that liveness part is checked on the code, not proved.")
     technique = "Lean 4 proof (parse agreement between the cache-based decoder and the specification decoder) + differential correspondence through the real DNSLayer"
     rule = ("server-style messages from an independent compressing encoder: compressed names inside CNAME/NS/PTR/MX/SOA/SRV/"
@@ -55,7 +55,7 @@ class Check(PropertyCheck):
     budget = {"quick": 5000, "thorough": 150000}
     time_budget = {"quick": 30, "thorough": 600}
     fingerprints = ["mitmproxy.proxy.layers.dns:DNSLayer.handle_request", "mitmproxy.proxy.layers.dns:DNSLayer.handle_response",
-                    "mitmproxy.proxy.layers.dns:DNSLayer.unpack_message", "mitmproxy.proxy.layers.dns:DNSLayer.state_query",
+                    "mitmproxy.proxy.layers.dns:DNSLayer._unpack_messages", "mitmproxy.proxy.layers.dns:DNSLayer.state_query",
                     "mitmproxy.proxy.layers.dns:pack_message"] + C25.Check.fingerprints
     trusted_base = C25.Check.trusted_base + ["harness/common/world.py as the stand-in for proxy/server.py's command interpreter"]
     parallel = False
@@ -148,6 +148,14 @@ class Check(PropertyCheck):
         ctx.server = connection.Server(address=("192.0.2.53", 53), transport_protocol=transport)
         return ctx
 
+    @staticmethod
+    def _soliciting_query(reply: bytes):
+        """the client query a server message answers: same id, same question section (uncompressed), nothing else"""
+        r = D.ref_questions(reply)
+        if r is None: return None
+        id_, qs = r
+        return struct.pack("!HHHHHH", id_, 0x0100, len(qs), 0, 0, 0) + b"".join(D.wire_name(l) + struct.pack("!HH", t, c) for l, t, c in qs)
+
     def impl(self, case):
         tr = case["transport"]
         msgs = [unhx(h) for h in case["msgs_hex"]]
@@ -158,9 +166,16 @@ class Check(PropertyCheck):
         if case["dir"] == "c2s":
             w.recv("client", data); dest = "server0"
         else:
-            w.recv("client", frame(CANNED_QUERY) if tr == "tcp" else CANNED_QUERY)
-            if w.errors or "server0" not in w.conns or not w.sent_to("server0"):
-                return {"state": "harness", "out": [], "why": "canned query was not forwarded"}
+            # a reply is only handed on if it answers a pending query of this client (same id and question section,
+            # that is C27): the client first asks exactly what each server message answers
+            qs = [self._soliciting_query(m) for m in msgs]
+            if any(q is None for q in qs) or len({q[:2] for q in qs}) != len(qs):
+                raise Skip()              # not a reply the client can have asked for / two replies for one id
+            for q in qs:
+                w.recv("client", frame(q) if tr == "tcp" else q)
+            if w.errors or "server0" not in w.conns or len([1 for lab, _ in w.sent_log if lab == "server0"]) != len(qs) \
+                    or any(t[0] == "close" for t in w.trace):
+                raise Skip()              # the layer itself cannot read the question section: nothing to answer
             w.sent_log.clear(); w.trace.clear()
             w.recv("server0", data); dest = "client"
         outs = [b for lab, b in w.sent_log if lab == dest]
@@ -177,22 +192,23 @@ class Check(PropertyCheck):
 
     # ------------------------------------------------------------------ the property
     def oracle(self, case, obs):
-        if obs["state"] == "harness": return ["harness: " + obs["why"]]
         if obs["state"].startswith("crashed"): return [f"the layer raised {obs['state'][8:]} while forwarding"]
         fails = []
         msgs = [unhx(h) for h in case["msgs_hex"]]
         outs = [unhx(h) for h in obs["out"]]
+        sizes_ok = case["transport"] == "udp" or all(0 < len(m) <= U16 for m in msgs)
         if obs["other"]: fails.append("data was sent to the side the message came from")
-        if obs["state"] == "sent" and len(outs) != len(msgs) and (case["transport"] == "udp" or all(0 < len(m) <= U16 for m in msgs)):
-            fails.append(f"{len(msgs)} messages in, {len(outs)} out")
-        if obs["state"] == "sent" and len(outs) == len(msgs):
+        if sizes_ok and (len(outs) > len(msgs) or (obs["state"] == "sent" and len(outs) != len(msgs))):
+            fails.append(f"{len(msgs)} messages in, {len(outs)} out ({obs['state']})")
+        if sizes_ok and len(outs) <= len(msgs):
+            # the layer handles the messages in order and stops at the first one it cannot parse
             for i, (a, b) in enumerate(zip(msgs, outs)):
                 ra = D.ref_view(a)
                 # "delivered to the other side as a message that an independent DNS decoder reads identically"
                 if ra != "err" and D.ref_view(b) != ra:
                     fails.append(f"message {i}: reference decoder reads {D.ref_view(b)[:300]} instead of {ra[:300]}")
-        if obs["state"] != "sent" and all(D.deliverable(m) for m in msgs) and all(0 < len(m) <= U16 for m in msgs):
-            fails.append(f"well-formed plain message(s) not delivered: {obs['state']}")
+        if sizes_ok and all(D.deliverable(m) for m in msgs) and (obs["state"] != "sent" or len(outs) != len(msgs)):
+            fails.append(f"well-formed plain message(s) not delivered: {obs['state']}, {len(outs)} of {len(msgs)}")
         return fails
 
     # ------------------------------------------------------------------ model tie
@@ -203,7 +219,6 @@ class Check(PropertyCheck):
 
     def model_lines(self, case):
         obs = self._obs_for(case)
-        if obs["state"] == "harness": return None
         msgs = [unhx(h) for h in case["msgs_hex"]]
         if case["transport"] == "tcp" and not all(0 < len(m) <= U16 for m in msgs): return None
         data = b"".join(frame(m) for m in msgs) if case["transport"] == "tcp" else msgs[0]
@@ -214,10 +229,10 @@ class Check(PropertyCheck):
         return list(replies)
 
     def impl_view(self, case, obs):
-        if obs["state"] == "sent":
-            if case["transport"] == "tcp": f = "sent " + (",".join(hx(frame(unhx(h))) for h in obs["out"]) or "-")
-            else: f = "sent " + (",".join(obs["out"]) or "-")
-        else: f = obs["state"].split(":")[0]
+        st = obs["state"].split(":")[0]
+        if st == "crashed": f = "crashed"
+        elif case["transport"] == "tcp": f = st + " " + (",".join(hx(frame(unhx(h))) for h in obs["out"]) or "-")
+        else: f = st + " " + (",".join(obs["out"]) or "-")
         return [f] + [D.ref_view(unhx(h)) for h in case["msgs_hex"]] + [D.ref_view(unhx(h)) for h in obs["out"]]
 
     # ------------------------------------------------------------------ evidence
